@@ -100,6 +100,8 @@ def run(tier, seed):
                 up, down = ov[0], ov[1]
             s = G.module(up, gen.rnd(rng.randint(2, 8), rng), down, gen.rnd(rng.randint(0, 8), rng), rng) if role == "module" \
                 else G.vector(down, up, gen.rnd(rng.randint(0, 6), rng), gen.rnd(rng.randint(2, 8), rng), rng)
+            if s and rng.random() < 0.25:       # a member with a third site of the enzyme: no candidate accepts it
+                s = tc.with_extra_site(s, G.site, rng)
             if s:
                 recipes.append({"fn": "characterize", "base": {"kit": kit, "name": name}, "seq": gen.rotate(s, rng.randrange(len(s)))})
     for espec, G in tc.geometries():
@@ -109,6 +111,8 @@ def run(tier, seed):
                 sg = rng.choice(sigs) if rng.random() < 0.7 else [gen.rnd(G.ovh, rng), gen.rnd(G.ovh, rng)]
                 up, down = tc.sig_instance(sg[0], rng), tc.sig_instance(sg[1], rng)
                 s = G.module(up, gen.rnd(4, rng), down, gen.rnd(4, rng), rng) if role == "module" else G.vector(down, up, gen.rnd(3, rng), gen.rnd(4, rng), rng)
+                if s and rng.random() < 0.25:
+                    s = tc.with_extra_site(s, G.site, rng)
                 if s:
                     recipes.append({"fn": "characterize", "base": {"user": {"enz": espec, "role": role, "sigs": sigs}},
                                     "seq": gen.rotate(s, rng.randrange(len(s)))})
